@@ -5,7 +5,7 @@
    specification, for every tree, every weighted voter set and all vote sets (no bound). *)
 From Coq Require Import List NArith Permutation.
 From Grandpa Require Import Tree Votes RoundSpec RoundProofs.
-From C20 Require Import Model Proofs ProofsPossible.
+From C20 Require Import Model Proofs ProofsPossible Graph GraphCheck GraphProofs.
 Import ListNotations.
 Local Open Scope N_scope.
 
@@ -186,6 +186,47 @@ Example C20_gate_is_a_convention_when_not_3f1 :
   estimate [0;0]%nat [1;1;1] V C = Some 1%nat /\ possible [0;0]%nat [1;1;1] C 1%nat = false /\
   estimate [0;0]%nat [1;1;1] V (mkVote 2%nat 2%nat 0%nat :: C) = Some 0%nat.
 Proof. vm_compute. repeat split; try reflexivity. discriminate. Qed.
+
+(* ---- Tier A mirror of Round / VoteGraph (C20/Graph.v: entries with ancestor edges, append,
+   introduceBranch, findContainingNodes, Insert with cumulative-vote propagation, FindGHOST with
+   ghostFindMergePoint, FindAncestor, the bitfield weights of context.go, importPrevote /
+   importPrecommit / update / PrecommitGHOST with their memoised fields).  The driver replays it
+   on every prefix of every history and compares the five observables and the final vote graph
+   (entries, edges, descendants, cumulative votes) with the Go code.
+   Proved by complete enumeration inside Coq for the scopes named in the statement (all trees with
+   k blocks, all histories of len imports of 3 voters over both phases, both hash orders): after
+   EVERY import every vote-node carries exactly the specification's weight in both phases, the
+   edges/descendants are the canonical ones, and the memoised state is round_state_of on the
+   tolerant domain (all_ok = node_weights_ok && structure_ok && state_ok, C20/GraphCheck.v).
+   The unbounded refinement proof is open; outside these scopes the mirror is tied by sampling. *)
+Theorem C20_graph_mirror_small_scope : forall k len ws,
+  In (k, len, ws) [(4%nat, 3%nat, [1;1;1]); (3%nat, 3%nat, [2;1;1]); (2%nat, 4%nat, [1;1;1])] ->
+  forall tr, In tr (trees k) -> forall h, In h (seqs len (ops_of k (length ws))) ->
+  forall lbl, lbl = lbl_id \/ lbl = lbl_rev ->
+  forall h1 h2, h = h1 ++ h2 -> h1 <> [] ->
+  all_ok tr ws (fold_left (fun st o => step_op tr lbl ws (fst o) (snd o) st) h1 rinit) = true.
+Proof. exact mirror_refines_spec_small_scope. Qed.
+Print Assumptions C20_graph_mirror_small_scope.
+
+(* for all trees, weights and votes: a bitfield whose bits (merged with the equivocations) are the
+   supporters of a block weighs Votes.weight of that block *)
+Theorem C20_bitfield_weight_is_weight : forall t ws S b bits eqv ph,
+  (forall v, (v < length ws)%nat ->
+     orb (memb (2 * v + ph)%nat bits) (memb (2 * v + ph)%nat eqv) = supports t S v b) ->
+  bits_weight ws bits eqv ph = weight t ws S b.
+Proof. exact bits_weight_is_weight. Qed.
+Print Assumptions C20_bitfield_weight_is_weight.
+
+(* non-vacuity: a branch introduced in the middle of an edge and a ghost that is a merge point *)
+Example C20_graph_mirror_example :
+  let t := [0; 1; 1]%nat in let ws := [1; 1; 1] in
+  let h := [(0, mkVote 0 2 0); (0, mkVote 1 3 0); (0, mkVote 2 3 0);
+            (1, mkVote 0 2 0); (1, mkVote 1 3 0); (1, mkVote 2 1 0)]%nat in
+  let s := fold_left (fun st o => step_op t lbl_id ws (fst o) (snd o) st) h rinit in
+  observed s = mkRS (Some 1%nat) (Some 1%nat) (Some 1%nat) true (Some 1%nat) /\
+  map fst (r_G s) = [0; 2; 3; 1]%nat /\
+  run_ok t lbl_id ws h rinit = true.
+Proof. exact mirror_example. Qed.
 
 (* ---- non-vacuity: TestRound_Finalisation of the package, rebased on block C.
    tree: 0=C 1=D 2=E 3=F 4=EA 5=EB 6=EC 7=ED 8=FA 9=FB 10=FC ; Alice 4, Bob 7, Eve 3 *)
